@@ -265,3 +265,80 @@ func TestC17_Enum(t *testing.T) {
 		statExhaustive("C17", fmt.Sprintf("all ordered pairs of %d terms of depth<=1 over %d atoms (%d objects each)", len(terms), len(atoms), len(c17Universe)))
 	}
 }
+
+// TestC17_LabelSets: every filter constructor that takes a label map, built
+// over every label map of the universe (keys x,y; values 1, 2 and the empty
+// string; plus nil), bare and under Not/And/Or; all ordered pairs.  The maps
+// differ pairwise in exactly the ways a hand-rolled map comparison gets
+// wrong: a key absent vs present-with-empty-value, same size with different
+// keys, subset/superset.
+func TestC17_LabelSets(t *testing.T) {
+	maps := allLabelMaps(uniKeys, uniValues)
+	var leaves []*term
+	nilsel := selSpec{Nil: true}
+	for _, m := range maps {
+		leaves = append(leaves, &term{Kind: tLabels, Set: copySet(m)}, &term{Kind: tSelectorMatch, Set: copySet(m)})
+		leaves = append(leaves, &term{Kind: tLabelSelector, Sel: selSpec{MatchLabels: copySet(m)}})
+		for _, kind := range workloadKinds {
+			switch kind {
+			case "service", "replicationcontroller":
+				leaves = append(leaves, &term{Kind: tWorkloadPods, WKind: kind, Sources: []workload{{NS: "a", Name: "w1", Sel: nilsel, SetSel: copySet(m), HasSet: m != nil}}})
+			default:
+				leaves = append(leaves, &term{Kind: tWorkloadPods, WKind: kind, Sources: []workload{{NS: "a", Name: "w1", Sel: selSpec{MatchLabels: copySet(m)}}}})
+				if kind == "deployment" || kind == "daemonset" {
+					leaves = append(leaves, &term{Kind: tWorkloadPods, WKind: kind, Sources: []workload{{NS: "a", Name: "w1", Sel: nilsel, Template: copySet(m)}}})
+				}
+			}
+		}
+	}
+	terms := append([]*term{}, leaves...)
+	for _, x := range leaves {
+		terms = append(terms, &term{Kind: tNot, Children: []*term{x}})
+	}
+	for i, x := range leaves {
+		if i%3 == 0 {
+			terms = append(terms, &term{Kind: tOr, Children: []*term{x, {Kind: tNull}}}, &term{Kind: tAnd, Children: []*term{{Kind: tAll}, x}})
+		}
+	}
+	filters := make([]filter.Filter, len(terms))
+	filters2 := make([]filter.Filter, len(terms))
+	bits := make([]bitset, len(terms))
+	for i, tm := range terms {
+		filters[i], filters2[i] = tm.build(), tm.build()
+		bits[i] = acceptBits(filters[i], c17Universe)
+		if msg := c17Rebuild(tm); msg != "" {
+			writeEnumReplay(t, "C17", "TestC17_LabelSets", tm.String(), msg)
+			t.Fatalf("C17 violation: %s", msg)
+		}
+	}
+	shard, nshards := shardOf()
+	var pairs, equalPairs int64
+	for i := range terms {
+		if i%nshards != shard {
+			continue
+		}
+		for j := range terms {
+			equal, _, msg := c17CheckPair(terms[i], terms[j], filters[i], filters2[j], bits[i], bits[j])
+			if msg != "" {
+				writeEnumReplay(t, "C17", "TestC17_LabelSets", terms[i].String()+" ~ "+terms[j].String(), msg)
+				t.Fatalf("C17 violation: %s", msg)
+			}
+			pairs++
+			if equal {
+				equalPairs++
+				a, b := terms[i], terms[j]
+				statCase("C17", hashString("ls:"+a.String()+" ~ "+b.String()), true, func() interface{} {
+					return map[string]interface{}{"a": a.String(), "b": b.String(), "reported_equal": true, "mode": "label-set enumeration", "objects_compared": len(c17Universe)}
+				}, "labelsets_reported_equal")
+			}
+		}
+	}
+	statMu.Lock()
+	p := statFor("C17")
+	p.Evaluations += pairs - equalPairs
+	p.Labels["labelsets_pairs"] += pairs
+	statMu.Unlock()
+	if shard == 0 {
+		statExhaustive("C17", fmt.Sprintf("all ordered pairs of %d label-map-taking filters (every constructor x %d label maps incl. empty values, bare and wrapped)", len(terms), len(maps)))
+	}
+}
